@@ -15,8 +15,13 @@ func ByName(a, b string) bool {
 func ByNameSmart(a, b string) bool {
 	v0, err0 := strconv.ParseFloat(a, 64)
 	v1, err1 := strconv.ParseFloat(b, 64)
-	if err0 == nil && err1 == nil {
+	num0, num1 := err0 == nil, err1 == nil
+	if num0 && num1 {
 		return v0 < v1
+	}
+	if num0 != num1 {
+		// A number sorts before text (comparing the pair as text made 2 < 10 < 1x < 2 a cycle)
+		return num0
 	}
 	return a < b
 }
